@@ -247,6 +247,7 @@ func VerifH_mldsa_expandMask() {
 
 // ExpandA / ExpandS: which 34- / 66-byte strings are handed to the rejection samplers.
 func VerifH_mldsa_expandA_S() {
+	verifrt.EngineOnly()
 	par := pickSet()
 	var seenA [][34]byte
 	var seenS [][66]byte
@@ -338,6 +339,7 @@ func VerifH_mldsa_lengths() {
 // ---- C20: hedged signing hands one fresh 32-byte draw, unchanged, to the internal signer;
 // the message framing is 0 || len(ctx) || ctx || M (also part of C10).
 func VerifH_c20_mldsa_sign() {
+	verifrt.EngineOnly()
 	var gotRnd [32]byte
 	var gotMu [64]byte
 	var gotMp []byte
@@ -377,5 +379,52 @@ func VerifH_c20_mldsa_sign() {
 	sk.SignDeterministicWithMu(mu)
 	verifrt.Assert(verifrt.Draws() == d1, "deterministic signing draws nothing")
 	verifrt.AssertEq(gotRnd[:], make([]byte, 32), "deterministic signing uses all-zero randomness")
+	verifrt.Reach("end")
+}
+
+// External API framing (FIPS 204 Algorithms 2-3): contexts longer than 255 bytes are refused
+// by Sign, SignDeterministic and Verify; otherwise M' = 0 || len(ctx) || ctx || M.
+func VerifH_mldsa_context() {
+	var gotSign, gotVerify []byte
+	var sk *SecretKey
+	var pk *PublicKey
+	if verifrt.Symbolic() {
+		verifrt.Summarize("mldsa.SecretKey).signInternal", func(sk *SecretKey, mp []byte, rnd [32]byte) []byte {
+			gotSign = mp
+			return []byte{1}
+		})
+		verifrt.Summarize("mldsa.PublicKey).verifyInternal", func(pk *PublicKey, mp []byte, sigma []byte) error {
+			gotVerify = mp
+			return nil
+		})
+		par := pickSet()
+		sk, pk = &SecretKey{par: par}, &PublicKey{par: par}
+	} else {
+		pk, sk = MLDSA44.KeyGenFromSeed([32]byte{1})
+	}
+	cl := [...]int{0, 1, 2, 254, 255, 256, 257, 511, 512}[verifrt.Choice("cl", 9)]
+	ctx := make([]byte, cl)
+	if cl > 0 {
+		ctx[0] = verifrt.Byte("c0")
+		ctx[cl-1] = verifrt.Byte("cN")
+	}
+	m := verifrt.Bytes("m", verifrt.Choice("ml", 3))
+	want := append(append([]byte{0, byte(cl)}, ctx...), m...)
+	_, e1 := sk.Sign(m, ctx)
+	if e1 == nil && verifrt.Symbolic() {
+		verifrt.AssertEq(gotSign, want, "Sign: M' = 0 || len(ctx) || ctx || M")
+	}
+	_, e2 := sk.SignDeterministic(m, ctx)
+	sig := []byte{1}
+	if !verifrt.Symbolic() {
+		// a signature genuinely valid for the M' that a wrapped length byte would produce
+		r := cl % 256
+		sig, _ = sk.SignDeterministic(append(append([]byte{}, ctx[r:]...), m...), ctx[:r])
+	}
+	e3 := pk.Verify(m, sig, ctx)
+	if e3 == nil && verifrt.Symbolic() {
+		verifrt.AssertEq(gotVerify, want, "Verify: M' = 0 || len(ctx) || ctx || M")
+	}
+	verifrt.Assert((e1 == nil) == (cl <= 255) && (e2 == nil) == (cl <= 255) && (e3 == nil) == (cl <= 255), "contexts longer than 255 bytes are refused by Sign, SignDeterministic and Verify")
 	verifrt.Reach("end")
 }
